@@ -50,6 +50,11 @@ def _gen_case(rng):
     c = _gen_case0(rng)
     if c['generate_at'] is not None and rng.random() < 0.3:
         c['steps_in_processes'] = True
+    if c['generate_at'] is not None and c['director'] == 'process' and c['divide_at'] is None \
+            and c['splitter_at'] is None and rng.random() < 0.3:
+        # the compartment is generated a second time over itself
+        c['regen_at'] = c['generate_at'] + rng.choice([1, 2])
+        c['ticks'] = max(c['ticks'], c['regen_at'] + 2)
     return c
 
 
@@ -64,6 +69,9 @@ def _gen_case0(rng):
 
 def corpus():
     return [
+        # F54: compartment `g` (two legacy derivers among its steps) is generated at t=2 and again, over itself, at t=3
+        {'kind': 'dynflow', 'entry': 'parts', 'initial': ['a'], 'generate_at': 2, 'divide_at': None, 'ticks': 5,
+         'x0': 0, 'slow': None, 'director': 'process', 'regen_at': 3},
         # F53: the steps of the generated compartment are handed over in its `processes` dictionary, with a flow
         {'kind': 'dynflow', 'entry': 'parts', 'initial': ['a'], 'generate_at': 2, 'divide_at': None, 'ticks': 4,
          'x0': 0, 'slow': None, 'director': 'process', 'steps_in_processes': True},
@@ -201,6 +209,9 @@ def _classes():
             t = ctx['now']() if ctx is not None else 0
             upd = {}
             if case['generate_at'] is not None and t + 1 == case['generate_at']:
+                upd['_generate'] = generated(self.parameters['key'], case)
+            if case.get('regen_at') is not None and t + 1 == case['regen_at']:
+                # the same directive once more: new process and step objects take the places of the old ones
                 upd['_generate'] = generated(self.parameters['key'], case)
             if case['divide_at'] is not None and t + 1 == case['divide_at'] and 'a' in states['agents']:
                 upd['_divide'] = {'mother': 'a', 'daughters': [{'key': 'a0'}, {'key': 'a1'}]}
@@ -494,6 +505,9 @@ def oracle(case, impl, who=('order', 'values', 'once', 'published', 'alive')):
         born = {k: (0, case['x0'] + 10 * i) for i, k in enumerate(case['initial'])}
         for row in rows:
             for k, v in sorted(row['agents'].items()):
+                if case.get('regen_at') is not None and row['t'] == case['regen_at'] and k in ('g', 'h') and 'x' in v:
+                    born[k] = (row['t'], v['x'])        # generated anew: counted from what it holds now
+                    continue
                 if k not in born:
                     if k in ('g', 'h') and 'x' in v:
                         born[k] = (row['t'], case['x0'] + (100 if k == 'g' else 200))
